@@ -116,15 +116,15 @@ theorem burn_overrun_unrepaired :
 
 /-! ### several burns of one agent share one thrust slot -/
 
-/-- **each burn thrusts on its own interval whatever else is queued**: when the burns of an agent do not touch,
-then at every instant `t` of every propagation call the thrust slot holds burn `b` exactly when `t` lies in the
-interval on which the one-burn model has `b` on - the other queued burns neither switch it off nor replace it. -/
-theorem slot_is_own_interval (burns : List BurnIv) (hsep : Separated burns) (hlen : ∀ b ∈ burns, tol ≤ b.2 - b.1)
+/-- **each burn thrusts on its own interval whatever else is queued**: when the burns of an agent do not overlap
+(one may begin at the very instant another ends, in either queue order), then at every instant `t` of every
+propagation call the thrust slot holds burn `b` exactly when `t` lies in the interval on which the one-burn model
+has `b` on - the other queued burns neither switch it off nor replace it. -/
+theorem slot_is_own_interval (burns : List BurnIv) (hsep : NonOverlapping burns) (hlen : ∀ b ∈ burns, tol ≤ b.2 - b.1)
     (t0 t1 t : Rat) (h0 : t0 ≤ t) (h1 : t < t1) (b : BurnIv) :
     slotAt burns t0 t1 t = some b ↔
       b ∈ burns ∧ ∃ lo hi, callOn .phaseSwitch b.1 b.2 t0 t1 = some (lo, hi) ∧ lo ≤ t ∧ t < hi := by
   have hp := tol_pos
-  -- the shape of `callOn` in terms of `armedAfterPrep`
   have hcall_armed : ∀ b : BurnIv, armedAfterPrep b t0 = true →
       callOn .phaseSwitch b.1 b.2 t0 t1 = some (t0, if b.2 ≤ t1 then b.2 else t1) := by
     intro b hb
@@ -140,60 +140,91 @@ theorem slot_is_own_interval (burns : List BurnIv) (hsep : Separated burns) (hle
     unfold armedAfterPrep at this
     unfold callOn
     simp only [this, Bool.false_eq_true, if_false]
-  -- a root of another burn cannot lie inside this burn's interval
-  have hforeign : ∀ b ∈ burns, ∀ b' ∈ burns, ∀ c ∈ rootsOf b' t0 t1, b.1 ≤ c.time → c.time ≤ b.2 → b' = b := by
-    intro b hb b' hb' c hc hlo hhi
-    by_contra hne
-    obtain ⟨_, _, h3, h4, _⟩ := rootsOf_time (hlen b' hb') hc
-    rcases hsep.of_mem hb' hb hne with h | h <;> linarith
-  unfold slotAt slotAtWith
+  -- the callbacks that have happened by `t`, in order
+  set P := (sortedRoots burns t0 t1).filter (fun c => decide (c.time ≤ t)) with hP
+  have hmemP : ∀ c, c ∈ P ↔ (∃ b' ∈ burns, c ∈ rootsOf b' t0 t1) ∧ c.time ≤ t := by
+    intro c
+    rw [hP, List.mem_filter, mem_sortedRoots]
+    simp only [decide_eq_true_eq]
+  have hsortP : P.Pairwise (fun a b => a.time ≤ b.time) := (sortedRoots_sorted burns t0 t1).filter _
+  have hslot : slotAt burns t0 t1 t = P.foldl (applyChange .ownOnly) (prepSlot burns t0) := by
+    unfold slotAt slotAtG firedRoots prepSlot
+    rfl
+  rw [hslot]
+  -- a start callback of another burn cannot lie inside this burn's interval
+  have hforeign_on : ∀ b ∈ burns, ∀ a ∈ burns, a ≠ b → ∀ x : Change, x ∈ rootsOf a t0 t1 → x.on = true →
+      b.1 < b.2 → x.time < b.2 → x.time < b.1 := by
+    intro b hb a ha hne x hx hon hbl hlt
+    rcases mem_rootsOf (hlen a ha) hx with ⟨_, _, rfl⟩ | ⟨_, _, _, rfl⟩ | ⟨_, _, _, rfl⟩
+    · simp at hon
+    · simp only at hlt ⊢
+      rcases hsep.of_mem ha hb hne with h | h
+      · linarith [hlen a ha]
+      · linarith
+    · simp at hon
   constructor
   · intro h
-    cases hl : latest (allRoots burns t0 t1) t with
-    | none =>
-      rw [hl] at h
-      have hall := (latest_none_iff _ _).mp hl
-      obtain ⟨hb, harm⟩ := (prepSlot_eq_some_iff hsep t0 b).mp h
-      obtain ⟨⟨hs, he⟩, _⟩ := (armed_iff b t0).mp harm
-      refine ⟨hb, t0, (if b.2 ≤ t1 then b.2 else t1), hcall_armed b harm, h0, ?_⟩
-      by_cases het : b.2 ≤ t1
-      · simp only [het, if_true]
-        by_contra hc
-        have hmem : (⟨b.2, none⟩ : Change) ∈ allRoots burns t0 t1 := by
-          unfold allRoots
-          refine List.mem_flatMap.mpr ⟨b, hb, ?_⟩
-          unfold rootsOf
-          simp only [harm, if_true, het, List.mem_singleton]
-        have := hall _ hmem
-        simp only at this
-        linarith [not_lt.mp hc]
-      · simp only [het, if_false]; exact h1
-    | some c =>
-      rw [hl] at h
-      simp only at h
-      obtain ⟨hc1, hc2, hc3⟩ := latest_some hl
-      unfold allRoots at hc1
-      obtain ⟨b', hb', hcb'⟩ := List.mem_flatMap.mp hc1
-      rcases mem_rootsOf (hlen b' hb') hcb' with ⟨_, _, rfl⟩ | ⟨hun, hs0, hs1, rfl⟩ | ⟨_, _, _, rfl⟩
-      · simp only at h; cases h
-      · simp only [Option.some.injEq] at h
-        subst h
-        have hnt : ¬ (b'.2 - b'.1 < tol) := not_lt.mpr (hlen b' hb')
-        refine ⟨hb', b'.1, (if b'.2 ≤ t1 then b'.2 else t1), ?_, hc2, ?_⟩
-        · rw [hcall_un b' hun]; simp only [hs0, hs1, and_self, if_true, hnt, if_false]
-        · by_cases het : b'.2 ≤ t1
+    by_cases hex : ∃ c ∈ P, c.on = true
+    · -- the last start callback decides
+      obtain ⟨pre, x, post, hPeq, hxon, hpost⟩ := exists_last_on P hex
+      rw [hPeq, fold_through_on pre post x hxon] at h
+      have hxP : x ∈ P := by rw [hPeq]; simp
+      obtain ⟨⟨a, ha, hxa⟩, hxt⟩ := (hmemP x).mp hxP
+      rcases mem_rootsOf (hlen a ha) hxa with ⟨_, _, rfl⟩ | ⟨hun, hs0, hs1, rfl⟩ | ⟨_, _, _, rfl⟩
+      · simp at hxon
+      · simp only at h hxt
+        -- the slot after the remaining end callbacks is `a` unless `a` itself ended
+        by_cases hended : ∃ c ∈ post, c.burn = a
+        · rw [fold_offs_ended post hpost a hended] at h; cases h
+        · have hkeep : ∀ c ∈ post, c.burn ≠ a := fun c hc hcb => hended ⟨c, hc, hcb⟩
+          rw [fold_offs_keep post hpost a hkeep] at h
+          simp only [Option.some.injEq] at h
+          subst h
+          have hnt : ¬ (a.2 - a.1 < tol) := not_lt.mpr (hlen a ha)
+          refine ⟨ha, a.1, (if a.2 ≤ t1 then a.2 else t1), ?_, hxt, ?_⟩
+          · rw [hcall_un a hun]; simp only [hs0, hs1, and_self, if_true, hnt, if_false]
+          · by_cases het : a.2 ≤ t1
+            · simp only [het, if_true]
+              by_contra hc
+              have hc := not_lt.mp hc
+              -- the end callback of `a` has happened, and it comes after the start callback
+              have hoffP : (⟨a.2, a, false⟩ : Change) ∈ P :=
+                (hmemP _).mpr ⟨⟨a, ha, off_mem_rootsOf (hlen a ha) (Or.inr ⟨hs0, hs1⟩) het⟩, hc⟩
+              rw [hPeq] at hoffP hsortP
+              rcases List.mem_append.mp hoffP with hin | hin
+              · have := (List.pairwise_append.mp hsortP).2.2 _ hin _ (List.mem_cons_self)
+                simp only at this
+                linarith [hlen a ha]
+              · rcases List.mem_cons.mp hin with heq | hin'
+                · simp at heq
+                · exact hkeep _ hin' rfl
+            · simp only [het, if_false]; exact h1
+      · simp at hxon
+    · -- no start callback yet: the slot is what `_prepEvents` left, unless that burn has ended
+      have hoffs : ∀ c ∈ P, c.on = false := by
+        intro c hc
+        by_contra hcon
+        exact hex ⟨c, hc, by simpa using hcon⟩
+      cases hprep : prepSlot burns t0 with
+      | none => rw [hprep, fold_offs_none P hoffs] at h; cases h
+      | some a =>
+        rw [hprep] at h
+        by_cases hended : ∃ c ∈ P, c.burn = a
+        · rw [fold_offs_ended P hoffs a hended] at h; cases h
+        · have hkeep : ∀ c ∈ P, c.burn ≠ a := fun c hc hcb => hended ⟨c, hc, hcb⟩
+          rw [fold_offs_keep P hoffs a hkeep] at h
+          simp only [Option.some.injEq] at h
+          subst h
+          obtain ⟨ha, harm⟩ := (prepSlot_eq_some_iff hsep t0 a).mp hprep
+          refine ⟨ha, t0, (if a.2 ≤ t1 then a.2 else t1), hcall_armed a harm, h0, ?_⟩
+          by_cases het : a.2 ≤ t1
           · simp only [het, if_true]
             by_contra hc
-            have hmem : (⟨b'.2, none⟩ : Change) ∈ allRoots burns t0 t1 := by
-              unfold allRoots
-              refine List.mem_flatMap.mpr ⟨b', hb', ?_⟩
-              unfold rootsOf
-              simp [hun, hs0, hs1, hnt, het]
-            have := hc3 _ hmem (by simpa using not_lt.mp hc)
-            simp only at this
-            linarith [hlen b' hb']
+            have hc := not_lt.mp hc
+            have hoffP : (⟨a.2, a, false⟩ : Change) ∈ P :=
+              (hmemP _).mpr ⟨⟨a, ha, off_mem_rootsOf (hlen a ha) (Or.inl harm) het⟩, hc⟩
+            exact hkeep _ hoffP rfl
           · simp only [het, if_false]; exact h1
-      · simp only at h; cases h
   · rintro ⟨hb, lo, hi, hcall, hlo, hhi⟩
     have hse : b.1 < b.2 := by linarith [hlen b hb]
     by_cases harm : armedAfterPrep b t0 = true
@@ -205,27 +236,34 @@ theorem slot_is_own_interval (burns : List BurnIv) (hsep : Separated burns) (hle
         by_cases het : b.2 ≤ t1
         · simpa only [het, if_true] using hhi
         · linarith [not_le.mp het]
-      -- no root has fired yet
-      have hnone : latest (allRoots burns t0 t1) t = none := by
-        rw [latest_none_iff]
+      have hprep : prepSlot burns t0 = some b := (prepSlot_eq_some_iff hsep t0 b).mpr ⟨hb, harm⟩
+      rw [hprep]
+      -- nothing that has happened by `t` starts another burn or ends this one
+      have hoffs : ∀ c ∈ P, c.on = false := by
         intro c hc
-        unfold allRoots at hc
-        obtain ⟨b', hb', hcb'⟩ := List.mem_flatMap.mp hc
-        by_contra hct
-        have hct := not_lt.mp hct
-        obtain ⟨hc0, _, _, _, _⟩ := rootsOf_time (hlen b' hb') hcb'
-        have hbb : b' = b := hforeign b hb b' hb' c hcb' (by linarith) (by linarith)
-        subst hbb
-        unfold rootsOf at hcb'
-        simp only [harm, if_true] at hcb'
-        by_cases het : b'.2 ≤ t1
-        · simp only [het, if_true, List.mem_singleton] at hcb'
-          subst hcb'
-          simp only at hct
+        by_contra hcon
+        have hcon : c.on = true := by simpa using hcon
+        obtain ⟨⟨a, ha, hca⟩, hct⟩ := (hmemP c).mp hc
+        by_cases hab : a = b
+        · subst hab
+          rcases mem_rootsOf (hlen a ha) hca with ⟨_, _, rfl⟩ | ⟨hun, _, _, _⟩ | ⟨hun, _, _, _⟩
+          · simp at hcon
+          · rw [harm] at hun; cases hun
+          · rw [harm] at hun; cases hun
+        · have := hforeign_on b hb a ha hab c hca hcon hse (by linarith)
+          obtain ⟨hc0, _, _, _, _⟩ := rootsOf_time (hlen a ha) hca
           linarith
-        · simp only [het, if_false, List.not_mem_nil] at hcb'
-      rw [hnone]
-      exact (prepSlot_eq_some_iff hsep t0 b).mpr ⟨hb, harm⟩
+      have hkeep : ∀ c ∈ P, c.burn ≠ b := by
+        intro c hc hcb
+        obtain ⟨⟨a, ha, hca⟩, hct⟩ := (hmemP c).mp hc
+        obtain ⟨_, _, _, _, hcburn⟩ := rootsOf_time (hlen a ha) hca
+        have hab : a = b := hcburn ▸ hcb
+        subst hab
+        rcases mem_rootsOf (hlen a ha) hca with ⟨_, _, rfl⟩ | ⟨hun, _, _, _⟩ | ⟨hun, _, _, _⟩
+        · simp only at hct; linarith
+        · rw [harm] at hun; cases hun
+        · rw [harm] at hun; cases hun
+      exact fold_offs_keep P hoffs b hkeep
     · have hun : armedAfterPrep b t0 = false := by simpa using harm
       rw [hcall_un b hun] at hcall
       by_cases hin : t0 ≤ b.1 ∧ b.1 ≤ t1
@@ -236,34 +274,50 @@ theorem slot_is_own_interval (burns : List BurnIv) (hsep : Separated burns) (hle
           by_cases het : b.2 ≤ t1
           · simpa only [het, if_true] using hhi
           · linarith [not_le.mp het]
-        have hon : (⟨b.1, some b⟩ : Change) ∈ allRoots burns t0 t1 := by
-          unfold allRoots
-          refine List.mem_flatMap.mpr ⟨b, hb, ?_⟩
-          unfold rootsOf
-          simp only [hun, Bool.false_eq_true, if_false, hin, and_self, if_true, hnt, List.mem_cons, true_or]
-        cases hl : latest (allRoots burns t0 t1) t with
-        | none =>
-          have := (latest_none_iff _ _).mp hl _ hon
-          simp only at this
-          linarith
-        | some c =>
-          simp only
-          obtain ⟨hc1, hc2, hc3⟩ := latest_some hl
-          have hge := hc3 _ hon hlo
-          simp only at hge
-          unfold allRoots at hc1
-          obtain ⟨b', hb', hcb'⟩ := List.mem_flatMap.mp hc1
-          have hbb : b' = b := hforeign b hb b' hb' c hcb' hge (by linarith)
-          subst hbb
-          rcases mem_rootsOf (hlen b' hb') hcb' with ⟨ha, _, _⟩ | ⟨_, _, _, rfl⟩ | ⟨_, _, _, rfl⟩
-          · rw [ha] at hun; cases hun
+        have honP : (⟨b.1, b, true⟩ : Change) ∈ P :=
+          (hmemP _).mpr ⟨⟨b, hb, on_mem_rootsOf (hlen b hb) hun hin.1 hin.2⟩, hlo⟩
+        obtain ⟨pre, x, post, hPeq, hxon, hpost⟩ := exists_last_on P ⟨_, honP, rfl⟩
+        rw [hPeq, fold_through_on pre post x hxon]
+        have hxP : x ∈ P := by rw [hPeq]; simp
+        obtain ⟨⟨a, ha, hxa⟩, hxt⟩ := (hmemP x).mp hxP
+        -- the last start callback is this burn's
+        have hab : a = b := by
+          by_contra hne
+          have hlt := hforeign_on b hb a ha hne x hxa hxon hse (by linarith)
+          -- then this burn's start callback, which is later, would come after `x` and be a start callback in `post`
+          rw [hPeq] at honP hsortP
+          rcases List.mem_append.mp honP with hin' | hin'
+          · have := (List.pairwise_append.mp hsortP).2.2 _ hin' _ (List.mem_cons_self)
+            simp only at this
+            linarith
+          · rcases List.mem_cons.mp hin' with heq | hin''
+            · rw [← heq] at hlt; simp only at hlt; linarith
+            · have := hpost _ hin''
+              simp at this
+        subst hab
+        have hxeq : x = ⟨a.1, a, true⟩ := by
+          rcases mem_rootsOf (hlen a ha) hxa with ⟨_, _, rfl⟩ | ⟨_, _, _, rfl⟩ | ⟨_, _, _, rfl⟩
+          · simp at hxon
           · rfl
-          · simp only at hc2; linarith
+          · simp at hxon
+        subst hxeq
+        simp only
+        refine fold_offs_keep post hpost a ?_
+        intro c hc hcb
+        have hcP : c ∈ P := by rw [hPeq]; simp [hc]
+        obtain ⟨⟨a', ha', hca'⟩, hct⟩ := (hmemP c).mp hcP
+        obtain ⟨_, _, _, _, hcburn⟩ := rootsOf_time (hlen a' ha') hca'
+        have : a' = a := hcburn ▸ hcb
+        subst this
+        rcases mem_rootsOf (hlen a' ha') hca' with ⟨harm', _, _⟩ | ⟨_, _, _, rfl⟩ | ⟨_, _, _, rfl⟩
+        · rw [harm'] at hun; cases hun
+        · have := hpost _ hc; simp at this
+        · simp only at hct; linarith
       · simp only [hin, if_false] at hcall; cases hcall
 
-/-- hence every one of several separated burns is on for exactly its own `end - start`, over any division into calls
-(`burn_duration` applies to each, the slot being that burn's exactly on its own intervals). -/
-theorem each_burn_own_duration (burns : List BurnIv) (hsep : Separated burns) (hlen : ∀ b ∈ burns, tol ≤ b.2 - b.1)
+/-- hence every one of several non-overlapping burns is on for exactly its own `end - start`, over any division into
+calls (`burn_duration` applies to each, the slot being that burn's exactly on its own intervals). -/
+theorem each_burn_own_duration (burns : List BurnIv) (hsep : NonOverlapping burns) (hlen : ∀ b ∈ burns, tol ≤ b.2 - b.1)
     (t : Nat → Rat) (N : Nat) (ht : ∀ k, k < N → t k < t (k + 1)) (b : BurnIv) (hb : b ∈ burns)
     (h0 : t 0 ≤ b.1) (hN : b.2 ≤ t N) (htol : ∀ k, k < N → ¬ (0 < b.2 - t k ∧ b.2 - t k < tol)) :
     totalOn .phaseSwitch b.1 b.2 t N = b.2 - b.1 ∧
@@ -275,19 +329,26 @@ theorem each_burn_own_duration (burns : List BurnIv) (hsep : Separated burns) (h
   rw [slot_is_own_interval burns hsep hlen (t k) (t (k + 1)) x hx0 hx1 b]
   exact ⟨fun h => h.2, fun h => ⟨hb, h⟩⟩
 
-/-- the single slot is why the hypothesis is needed, and why `_prepEvents` must leave the slot alone for burns that
-are not under way: (1) with *overlapping* burns the end of the inner one empties the slot while the outer one should
-still thrust (outside the property: it speaks of a burn, not of simultaneous ones); (2) a `_prepEvents` that writes
-`None` for every burn not under way lets a later queued burn switch off the one that is (a seeded change). -/
+/-- what the single slot did before the repair, and what still lies outside the theorem:
+(1, 2) a burn that begins at the instant another ends was lost in one queue order - the solver reports one terminal
+event per stop and the restart is already past the other root - and in the other order survived only because the
+lost callback was the end of the first burn; with both callbacks delivered but an unconditional switch-off it is lost
+in the other order; the repaired shape has it on in both.  (3) a `_prepEvents` that writes `None` for every burn not
+under way lets a later queued burn switch off the one that is (a seeded change).  (4) *overlapping* burns still
+share the slot: the inner one replaces the outer, whose thrust does not resume (outside the property: it speaks of a
+burn, not of simultaneous ones). -/
 theorem slot_witnesses :
-    slotAt [(10, 100), (20, 30)] 0 60 40 = none ∧
+    slotAtG .keep .firstOnly .clobber [(60, 150), (150, 200)] 120 180 160 = none ∧
+    slotAtG .keep .all .clobber [(150, 200), (60, 150)] 120 180 160 = none ∧
+    slotAt [(60, 150), (150, 200)] 120 180 160 = some (150, 200) ∧
+    slotAt [(150, 200), (60, 150)] 120 180 160 = some (150, 200) ∧
+    slotAtG .clobber .all .ownOnly [(10, 100), (120, 130)] 60 120 70 = none ∧
     slotAt [(10, 100), (120, 130)] 60 120 70 = some (10, 100) ∧
-    slotAtWith .clobber [(10, 100), (120, 130)] 60 120 70 = none ∧
-    slotAtWith .clobber [(120, 130), (10, 100)] 60 120 70 = some (10, 100) := by
+    slotAt [(10, 100), (20, 30)] 0 60 40 = none := by
   decide +kernel
 
-example : Separated [(10, 100), (120, 130)] ∧ (∀ b ∈ [((10 : Rat), (100 : Rat)), (120, 130)], tol ≤ b.2 - b.1) := by
-  refine ⟨by unfold Separated; simp; norm_num, ?_⟩
+example : NonOverlapping [(60, 150), (150, 200)] ∧ (∀ b ∈ [((60 : Rat), (150 : Rat)), (150, 200)], tol ≤ b.2 - b.1) := by
+  refine ⟨by unfold NonOverlapping; simp, ?_⟩
   intro b hb
   simp only [List.mem_cons, List.not_mem_nil, or_false] at hb
   rcases hb with rfl | rfl <;> (unfold tol; norm_num)
